@@ -44,6 +44,9 @@ pub struct FsCfg {
     pub short_pct: u64,
     pub eio_permille: u64,
     pub enospc_permille: u64,
+    /// Sub-sector tearing (finer than real disks; separate family, see DESIGN 3.4).
+    #[serde(default)]
+    pub subsector: bool,
 }
 
 #[derive(Serialize, Deserialize, Clone, Debug, PartialEq)]
@@ -161,7 +164,10 @@ pub struct SyncSess {
     pub end_sent: bool,
     /// Command ids per response index actually sent by the responder.
     pub sent: Vec<Vec<CmdId>>,
-    pub next_index_accepted: u64,
+    /// Highest response index whose commands the requester handed out.
+    pub last_index_accepted: Option<u64>,
+    /// Response indexes (of this session) that reached the requester, damaged or not.
+    pub delivered_indexes: BTreeSet<u64>,
     pub missing_at_open: usize,
     pub delivered_new: usize,
     pub b_committed_at_open: usize,
@@ -211,6 +217,8 @@ pub struct Sim {
     pub state_checks: u64,
     pub fs: Option<Rc<crate::simfs::SimFs>>,
     pub disk: Vec<crate::simfs::DiskShadow>,
+    /// Print every event-log line (debugging only; never influences behaviour).
+    pub trace: bool,
 }
 
 pub fn key_alphabet() -> Vec<Key> {
@@ -245,7 +253,7 @@ impl Sim {
         let fs = if cfg.file_backed.iter().any(|f| *f) {
             let fs = Rc::new(crate::simfs::SimFs::new(
                 cfg.seed,
-                crate::simfs::FsFaults { eintr_pct: cfg.fs.eintr_pct, short_pct: cfg.fs.short_pct, eio_permille: cfg.fs.eio_permille, enospc_permille: cfg.fs.enospc_permille },
+                crate::simfs::FsFaults { eintr_pct: cfg.fs.eintr_pct, short_pct: cfg.fs.short_pct, eio_permille: cfg.fs.eio_permille, enospc_permille: cfg.fs.enospc_permille, subsector: cfg.fs.subsector },
             ));
             aranya_libc::verif::install(Some(Rc::clone(&fs) as Rc<dyn aranya_libc::verif::SimSys>));
             Some(fs)
@@ -294,10 +302,14 @@ impl Sim {
             state_checks: 0,
             fs,
             disk: vec![crate::simfs::DiskShadow::default(); n],
+            trace: std::env::var_os("DAGSIM_TRACE").is_some(),
         }
     }
 
     pub fn note(&mut self, s: &str) {
+        if self.trace {
+            eprintln!("TRACE step {}: {s}", self.step_no);
+        }
         self.event_hash = vcommon::fnv(&[&self.event_hash.to_le_bytes()[..], s.as_bytes()].concat());
     }
 
